@@ -50,7 +50,7 @@ def near_misses(rng, typ, key):
 
 def run(ctx):
     ctx.rule = ("for each of the 7 unit types and each documented key: near-miss names (case changes, one-character insertions/deletions/transpositions, prefixes/suffixes, a Cyrillic "
-                "look-alike) and keys documented only for other types, each added to a minimal unit of that type (also inside [Quadlet]); conversely random units built from documented "
+                "look-alike) and keys documented only for other types, each added with a plain, empty, empty-quoted or other value, last, first or twice, to a minimal unit of that type (also inside [Quadlet]); conversely random units built from documented "
                 "keys only; non-trivial = the near miss differs from a documented key by one edit or is documented for another type; distinct = distinct (type, key)")
     rng = ctx.rng
     cases, meta = [], []
@@ -65,20 +65,28 @@ def run(ctx):
         if ctx.tier != "thorough":
             rng.shuffle(cand)
             cand = cand[: 260]
-        for k in sorted(set(cand)):
-            text = "[%s]\n%s%s=v\n" % (sec, docs.MINIMAL[typ], k)
-            path = "/d/u%d.%s" % (len(cases), typ)
-            cases.append(case_line("convert", "0", path, text)); meta.append((typ, k, path, "own"))
+        # the value written for the undocumented key must not matter: plain, empty, empty-quoted, blank-only, reset-then-set, and the key placed first
+        for n, k in enumerate(sorted(set(cand))):
+            for val in (["v", "", '""'] if (ctx.tier == "thorough" or n % 2 == 0) else [rng.choice(["v", "", '""', "' '", "yes", "a b", "%t/x"])]):
+                if n % 5 == 4:
+                    text = "[%s]\n%s=%s\n%s" % (sec, k, val, docs.MINIMAL[typ])
+                elif n % 7 == 6:
+                    text = "[%s]\n%s%s=x\n%s=%s\n" % (sec, docs.MINIMAL[typ], k, k, val)
+                else:
+                    text = "[%s]\n%s%s=%s\n" % (sec, docs.MINIMAL[typ], k, val)
+                path = "/d/u%d.%s" % (len(cases), typ)
+                cases.append(case_line("convert", "0", path, text)); meta.append((typ, k, path, "own"))
         for k in ["defaultdependencies", "DefaultDependency", "Bogus", "Image"]:
-            text = "[%s]\n%s[Quadlet]\n%s=no\n" % (sec, docs.MINIMAL[typ], k)
-            path = "/d/q%d.%s" % (len(cases), typ)
-            cases.append(case_line("convert", "0", path, text)); meta.append((typ, k, path, "quadlet"))
+            for val in ["no", "", '""']:
+                text = "[%s]\n%s[Quadlet]\n%s=%s\n" % (sec, docs.MINIMAL[typ], k, val)
+                path = "/d/q%d.%s" % (len(cases), typ)
+                cases.append(case_line("convert", "0", path, text)); meta.append((typ, k, path, "quadlet"))
     impl = vlib.run_impl(cases)
     model = vlib.run_model(cases) if ctx.model_ok else None
     mism = 0
     for i, ((typ, k, path, where), o) in enumerate(zip(meta, impl)):
         ctx.evaluations += 1
-        ctx.nontrivial.add((typ, k, where))
+        ctx.nontrivial.add((typ, k, where, cases[i]))
         ctx.count("reject:%s" % typ)
         rec = vlib.parse_convert(o)[0]
         if model is not None:
